@@ -1,11 +1,18 @@
 (* C11 - nothing written by a renderer is lost, duplicated or reordered before the sink.
    Theorems only; see DESIGN.md section 6 (C11).  Models: Sys/Buffer.v (the
    Triangle3Buffer / Line2Buffer state machine and the consumer loops) and
-   Sys/Pipeline.v (producer, rendezvous channel, writer goroutine, main). *)
+   Sys/Pipeline.v (producer, rendezvous channel, writer goroutine, main).
+   Tie to the source: Generated/SysProgs.v holds the statement skeleton of the Write / Close
+   methods and of the To* / writeXXX functions extracted from the current Go source
+   (harness/sysgen); Sys/BufferProg.v and Sys/PipeProg.v give those programs a small-step
+   meaning; the C11_source_* theorems below are about the GENERATED programs. *)
 From Coq Require Import List Arith NArith Permutation.
+From Sdfx Require Import Sys.SysLang.
 From Sdfx Require Import Sys.Buffer.
 From Sdfx Require Import Sys.Pipeline.
-From Sdfx Require Import Generated.BufferConsts.
+From Sdfx Require Import Sys.BufferProg Sys.PipeProg.
+From Sdfx Require Import Generated.BufferConsts Generated.SysProgs.
+From Sdfx Require Import Sys.SysProgsC11 Sys.SysProgsC12.
 Import ListNotations.
 
 (* At every moment, after ANY sequence of Write / Close operations (empty writes,
@@ -55,10 +62,11 @@ Print Assumptions C11_writes_send_full_batches.
 
 (* The consumer goroutine under every interleaving with the producer and main: once
    it has finished, it has written exactly the batches, in order, and the count it
-   stores is their number (no failure injected; either protocol). *)
-Theorem C11_consumer_all_interleavings : forall (A : Type) (P : proto) (batches : list (list A)) (s : st A),
-  reachable P None (init batches) s -> con s = Done ->
-  out s = concat batches /\ hdr s = Some (length (concat batches)).
+   stores is their number (no write failure injected; either protocol; fin_ok: the
+   finalisation - header rewrite, encode, save - succeeds, otherwise no count is stored). *)
+Theorem C11_consumer_all_interleavings : forall (A : Type) (P : proto) (fin_ok : bool) (batches : list (list A)) (s : st A),
+  reachable P None fin_ok (init batches) s -> con s = Done ->
+  out s = concat batches /\ hdr s = if fin_ok then Some (length (concat batches)) else None.
 Proof. exact consumer_all_interleavings. Qed.
 Print Assumptions C11_consumer_all_interleavings.
 
@@ -78,6 +86,93 @@ Theorem C11_checker_sound : forall pss d m,
 Proof. exact checker_sound. Qed.
 Print Assumptions C11_checker_sound.
 
+(* ------------------------------------------------------------------ tie to the source by translation *)
+
+(* The Write and Close methods found in the source are  Lock; body; Unlock; return  where the
+   body contains buffer statements only, and the uninterrupted run of the body IS the step
+   function of Buffer.v, for every state and argument, with the threshold of the source. *)
+Theorem C11_source_Triangle3Buffer_is_model :
+  (exists bw, strip T3_Write = Do PLock :: bw ++ [Do PUnlock; Return] /\ plain bw = true /\
+              forall A (s : Buffer.state A) (items : list A),
+                seqs items bw (buf s, sent s) = (buf (Buffer.step tBufferSize s (Write items)), sent (Buffer.step tBufferSize s (Write items)))) /\
+  (exists bc, strip T3_Close = Do PLock :: bc ++ [Do PUnlock; Return] /\ plain bc = true /\
+              forall A (s : Buffer.state A),
+                seqs [] bc (buf s, sent s) = (buf (Buffer.step tBufferSize s Close), sent (Buffer.step tBufferSize s Close))).
+Proof. exact T3_source_ok. Qed.
+Print Assumptions C11_source_Triangle3Buffer_is_model.
+
+Theorem C11_source_Line2Buffer_is_model :
+  (exists bw, strip L2_Write = Do PLock :: bw ++ [Do PUnlock; Return] /\ plain bw = true /\
+              forall A (s : Buffer.state A) (items : list A),
+                seqs items bw (buf s, sent s) = (buf (Buffer.step lBufferSize s (Write items)), sent (Buffer.step lBufferSize s (Write items)))) /\
+  (exists bc, strip L2_Close = Do PLock :: bc ++ [Do PUnlock; Return] /\ plain bc = true /\
+              forall A (s : Buffer.state A),
+                seqs [] bc (buf s, sent s) = (buf (Buffer.step lBufferSize s Close), sent (Buffer.step lBufferSize s Close))).
+Proof. exact L2_source_ok. Qed.
+Print Assumptions C11_source_Line2Buffer_is_model.
+
+(* Atomicity of Write / Close derived from the program text: any number of goroutines call the
+   extracted methods on one buffer, their statements interleaved by an ARBITRARY scheduler (a
+   statement of a goroutine that does not hold the mutex may run between any two statements of
+   the one that does).  Whenever the mutex is free the buffer and the channel traffic are
+   Buffer.run of the calls in the order in which they took the mutex, and when all goroutines
+   have finished that order is an interleaving of their call sequences. *)
+Theorem C11_source_Triangle3Buffer_calls_atomic : forall (A : Type) (opss : list (list (op A))) (sched : list nat),
+  let c := run_sched (strip T3_Write) (strip T3_Close) sched (init_cfg opss) in
+  (c_lock c = None -> c_buf c = buf (Buffer.run tBufferSize (map snd (c_log c))) /\
+                      c_sent c = sent (Buffer.run tBufferSize (map snd (c_log c)))) /\
+  (finished c -> c_lock c = None /\ Merge opss (map snd (c_log c))).
+Proof. exact T3_calls_atomic. Qed.
+Print Assumptions C11_source_Triangle3Buffer_calls_atomic.
+
+Theorem C11_source_Line2Buffer_calls_atomic : forall (A : Type) (opss : list (list (op A))) (sched : list nat),
+  let c := run_sched (strip L2_Write) (strip L2_Close) sched (init_cfg opss) in
+  (c_lock c = None -> c_buf c = buf (Buffer.run lBufferSize (map snd (c_log c))) /\
+                      c_sent c = sent (Buffer.run lBufferSize (map snd (c_log c)))) /\
+  (finished c -> c_lock c = None /\ Merge opss (map snd (c_log c))).
+Proof. exact L2_calls_atomic. Qed.
+Print Assumptions C11_source_Line2Buffer_calls_atomic.
+
+(* Several producers writing concurrently through the extracted Write, every schedule: when
+   they have finished the buffer is Buffer.run of an interleaving m of their Writes, and the
+   closing flush delivers concat m - a permutation of all items, each producer's in order. *)
+Theorem C11_source_Triangle3Buffer_multi_producer : forall (A : Type) (pss : list (list (list A))) (sched : list nat),
+  let c := run_sched (strip T3_Write) (strip T3_Close) sched (init_cfg (map (map (@Write A)) pss)) in
+  finished c ->
+  exists m : list (list A),
+    Merge pss m /\
+    c_buf c = buf (Buffer.run tBufferSize (map (@Write A) m)) /\ c_sent c = sent (Buffer.run tBufferSize (map (@Write A) m)) /\
+    let d := delivered (Buffer.run tBufferSize (map (@Write A) m ++ [Close])) in
+    d = concat m /\ Permutation (concat (map (@concat A) pss)) d /\ Forall (fun ps => Subseq (concat ps) d) pss.
+Proof. exact T3_multi_producer. Qed.
+Print Assumptions C11_source_Triangle3Buffer_multi_producer.
+
+Theorem C11_source_Line2Buffer_multi_producer : forall (A : Type) (pss : list (list (list A))) (sched : list nat),
+  let c := run_sched (strip L2_Write) (strip L2_Close) sched (init_cfg (map (map (@Write A)) pss)) in
+  finished c ->
+  exists m : list (list A),
+    Merge pss m /\
+    c_buf c = buf (Buffer.run lBufferSize (map (@Write A) m)) /\ c_sent c = sent (Buffer.run lBufferSize (map (@Write A) m)) /\
+    let d := delivered (Buffer.run lBufferSize (map (@Write A) m ++ [Close])) in
+    d = concat m /\ Permutation (concat (map (@concat A) pss)) d /\ Forall (fun ps => Subseq (concat ps) d) pss.
+Proof. exact L2_multi_producer. Qed.
+Print Assumptions C11_source_Line2Buffer_multi_producer.
+
+(* The five sinks: the extracted driver and writer function (with its writer goroutine) parse
+   as a call of Sys/PipeProg.v, and when nothing fails every maximal execution of that call -
+   any interleaving of caller, renderer sends and writer goroutine - ends with the caller
+   returned, the goroutine gone, and the sink holding exactly the batches, in order. *)
+Theorem C11_source_sinks_deliver : forall (A : Type),
+  Forall (fun dw : list stmt * list stmt =>
+    exists d w, parse_driver (strip (fst dw)) = Some d /\ parse_writer (strip (snd dw)) = Some w /\
+      forall (batches : list (list A)) (c : ist A),
+        ireach (w_cons w) (w_opens w) (d_returns d) None (fun _ => false) None (iinit batches) c ->
+        istuck (w_cons w) (w_opens w) (d_returns d) None (fun _ => false) None c ->
+        i_m c = MRet /\ i_k c = Some KExit /\ i_wg c = 0 /\ i_out c = concat batches)
+    [(ToTriangles, WriteTriangles); (ToSTL, writeSTL); (To3MF, write3MF); (ToDXF, writeDXF); (ToSVG, writeSVG)].
+Proof. exact sinks_deliver. Qed.
+Print Assumptions C11_source_sinks_deliver.
+
 (* non-vacuity: the thresholds found in the source satisfy 1 <= N, a two-producer
    interleaving exists, and the model flushes at the threshold. *)
 Example C11_real_thresholds : 1 <= tBufferSize /\ 1 <= lBufferSize.
@@ -95,3 +190,12 @@ Qed.
 Example C11_flush_at_threshold :
   map (@length nat) (sent (run 3 [Write [1; 2]; Write [3]; Write [4; 5; 6; 7]; Write []; Write [8]; Close; Close])) = [3; 4; 1].
 Proof. reflexivity. Qed.
+
+(* non-vacuity of the source-level theorems: two goroutines through the extracted Write/Close,
+   the scheduler alternating between them statement by statement; both finish, 5 calls logged *)
+Example C11_source_schedule_finishes :
+  let c := run_sched (strip T3_Write) (strip T3_Close) demo_sched
+                     (init_cfg [[Write [1; 2]; Write [3]]; [Write [10]; Write []; Close]]) in
+  (forall i, i < 2 -> match c_th c i with Some t => t_k t = [] /\ t_cur t = None /\ t_todo t = [] | None => False end) /\
+  c_lock c = None /\ length (c_log c) = 5.
+Proof. exact demo_finishes. Qed.
